@@ -453,7 +453,7 @@ func runC03(p *core.Prog, r *core.Report, tier string) {
 					if id, _, ok := core.FieldOfAddr(st.Addr); ok && id.Name == fld {
 						stores = append(stores, in)
 						vd := ds.D(st.Val)
-						r.Check(vd.Kind == "param", "C03.f", "checkEventForReorg|"+fld+"|from-event", p.Pos(st.Pos()), fld+" <- the event's value", fld+" is set to "+vd.String())
+						r.Check(vd.Kind == "param" || rootedAtEventParam(vd, f), "C03.f", "checkEventForReorg|"+fld+"|from-event", p.Pos(st.Pos()), fld+" <- the event's value", fld+" is set to "+vd.String())
 					}
 				}
 			})
@@ -475,19 +475,44 @@ func runC03(p *core.Prog, r *core.Report, tier string) {
 			}
 			nGo++
 			// control dependent on a bytes.Equal between a stored and a received root
+			isStored := func(d *core.VD) bool {
+				return d.Any(func(x *core.VD) bool {
+					return x.Kind == "field" && strings.Contains(x.Name, "DutyDependentRoot") && len(x.Args) == 1 && x.Args[0].Kind == "param" && x.Args[0].Name == f.Params[0].Name()
+				})
+			}
+			isReceived := func(d *core.VD) bool {
+				return d.Any(func(x *core.VD) bool {
+					if !strings.Contains(x.Name, "DutyDependentRoot") {
+						return false
+					}
+					if x.Kind == "param" {
+						return true
+					}
+					// a field of the event handed in
+					return x.Kind == "field" && len(x.Args) == 1 && x.Args[0].Kind == "param" && x.Args[0].Name != f.Params[0].Name()
+				})
+			}
 			w := core.Unguarded(ds, f, nil, func(x ssa.Instruction) bool { return x == in }, func(c core.Cond) int {
-				if c.B == nil || !c.B.IsCall("bytes.Equal") {
-					return -1
+				if c.B != nil && c.B.IsCall("bytes.Equal") {
+					if !isStored(c.B) || !isReceived(c.B) {
+						return -1
+					}
+					if c.BoolOnEdge(0) {
+						return 1
+					}
+					return 0
 				}
-				hasField := c.B.Any(func(x *core.VD) bool { return x.Kind == "field" && strings.Contains(x.Name, "DutyDependentRoot") })
-				hasParam := c.B.Any(func(x *core.VD) bool { return x.Kind == "param" && strings.Contains(x.Name, "DutyDependentRoot") })
-				if !hasField || !hasParam {
-					return -1
+				// the roots compared as arrays: stored != received
+				if c.Op == "==" || c.Op == "!=" {
+					if (isStored(c.X) && isReceived(c.Y)) || (isStored(c.Y) && isReceived(c.X)) {
+						for e := 0; e < 2; e++ {
+							if c.RelOnEdge(e) == "!=" {
+								return e
+							}
+						}
+					}
 				}
-				if c.BoolOnEdge(0) {
-					return 1
-				}
-				return 0
+				return -1
 			})
 			r.Check(w == nil, "C03.f", fmt.Sprintf("checkEventForReorg|handler#%d|%s", nGo, core.CalleeName(g.Common())), p.Pos(g.Pos()), "the handler starts when a stored root differs from the received one", "the change handler is not started under a comparison of the stored with the received dependent root", p.WitnessText(w)...)
 		})
@@ -785,3 +810,24 @@ func instrName(in ssa.Instruction) string {
 }
 
 var _ = types.Typ
+
+// rootedAtEventParam: the value is read from (or computed only from) a parameter other than the receiver —
+// the event, or a field of the event, handed to the function.
+func rootedAtEventParam(d *core.VD, f *ssa.Function) bool {
+	ok := false
+	bad := false
+	d.Walk(func(x *core.VD) bool {
+		switch x.Kind {
+		case "param":
+			if len(f.Params) > 0 && x.Name == f.Params[0].Name() {
+				// the receiver: only as the carrier of a pure service (chain time)
+				return true
+			}
+			ok = true
+		case "field", "call", "convert", "binop", "const", "deref", "index":
+		default:
+		}
+		return true
+	})
+	return ok && !bad
+}
